@@ -78,10 +78,22 @@ def main():
         else:
             import datetime as _dt
             ties_v = [(_dt.date(2020, 1, 1) + _dt.timedelta(days=v)) if k == "date" else _dt.datetime(2020, 1, 1, 12, 0, v) for v in ties_i]
+        # layout 5: one big group (> 128 rows: size-dependent kernels) with a tie whose first-encountered value is not the smallest
+        big_g = [1] * 300 + [2] * 3
+        big_i = [7, 3] * 150 + [5, 5, 4]
+        if k == "bool":
+            big_v = [bool(v % 2 == 1 and v != 3) for v in big_i]
+        elif k == "int":
+            big_v = big_i
+        elif k == "float":
+            big_v = [v + 0.25 for v in big_i]
+        else:
+            import datetime as _dt2
+            big_v = [(_dt2.date(2021, 3, 1) + _dt2.timedelta(days=v)) if k == "date" else _dt2.datetime(2021, 3, 1, 8, 0, v) for v in big_i]
         g1 = [2, 1, 1, 3, 3, 3, 1, 2, 2]
         g2 = [1, 1, 2, 2, 2, 3, 3, 3, 3]
         g3 = [5] * 9
-        return [[("g", "int", g1), ("x", k, a)], [("g", "int", g2), ("x", k, b)], [("g", "int", g3), ("x", k, a)], [("g", "int", ties_g), ("x", k, ties_v)]]
+        return [[("g", "int", g1), ("x", k, a)], [("g", "int", g2), ("x", k, b)], [("g", "int", g3), ("x", k, a)], [("g", "int", ties_g), ("x", k, ties_v)], [("g", "int", big_g), ("x", k, big_v)]]
 
     def run(helper, kw, spec, numba_on):
         di.USE_NUMBA = numba_on
